@@ -105,8 +105,6 @@ class ValCheck(checks_net.NetCheck):
         cfg["fams"] = [f for f in cfg["fams"] if f not in ("cpu",)] or ["conv"]
         if r.random() < 0.85:
             cfg["fams"] = [f for f in cfg["fams"] if f not in ("mean", "softmax")] or ["conv"]
-        if cfg["dtype"] == "int16":
-            cfg["dtype"] = "int8"
         return netgen.gen_recipe(r, cfg)
 
     def value_viol(self, desc, vc, layers):
@@ -400,7 +398,7 @@ class C10(ValCheck):
 
     def gen_recipe(self, r):
         cfg = netgen.swarm_config(r, "stripes")
-        cfg["dtype"] = r.choice(["int8", "int8", "uint8"])
+        cfg["dtype"] = r.choice(["int8", "int8", "int8", "uint8", "int16"])
         cfg["fams"] = [f for f in cfg["fams"] if f in ("conv", "dw", "pool", "ew", "act", "lut", "shape", "resize", "tconv")] or ["conv"]
         cfg["size"] = r.choice(["tall", "tall", "small"])
         cfg["depth"] = r.choice([2, 3, 4, 6])
